@@ -64,7 +64,15 @@ def _levels(tier):
                                G.chains(2, G.CORE, F1))))
     L.append(('chains d<=1 / full patterns x all forms, all distractors', 'list+mix',
               lambda: _cat(G.chains(0, G.FULL, G.FORMS), G.chains(1, G.FULL, G.FORMS))))
+    # first iterable of a comprehension that STARTS with the identifier (`x`, `x.copy()`, `x[0]`;
+    # target `_` or `x` itself), in every enclosing scope kind and comprehension flavour
+    for st in ('list', 'gen', 'set', 'dict'):
+        L.append(('chains d<=2 / leading-name first iterables, style %s' % st, st + '+box',
+                  lambda: (s for d in (1, 2) for s in G.chains(d, G.LEAD, F1) if _has_lead(s))))
     if tier == 'thorough':
+        for st in ('list', 'gen', 'set', 'dict'):
+            L.append(('chains d=3 / leading-name first iterables, style %s' % st, st + '+box',
+                      lambda: (s for s in G.chains(3, G.LEAD, F1) if _has_lead(s))))
         L.append(('chains d=2 / full patterns, assign, all distractors', 'list+mix',
                   lambda: G.chains(2, G.FULL, F1)))
         L.append(('chains d=3 / core patterns, assign, all distractors', 'list+mix',
@@ -99,6 +107,10 @@ def _flat(s):
 
 def _has_form(s):
     return any(n[2] != 'assign' for n in _flat(s))
+
+
+def _has_lead(s):
+    return any(n[1] in G.LEAD_PATTERNS for n in _flat(s))
 
 
 def _is_core(s):
@@ -383,7 +395,8 @@ def run(ctx):
         'levels_completed': done, 'exhaustive': exhaustive, 'samples': samples[:6],
         'pattern_hits': dict(sorted(hits.items())),
         'alphabet': {'kinds': 'M F C L G', 'patterns': G.FULL, 'core_patterns': G.CORE,
-                     'forms': G.FORMS, 'distractors': G.DISTRACTORS},
+                     'forms': G.FORMS, 'distractors': G.DISTRACTORS,
+                     'leading_name_iterables': G.LEAD_PATTERNS},
     })
     ctx.assumptions += [
         'configuration `stubs`; target interpreter = the harness interpreter (CPython 3.12)',
